@@ -55,6 +55,7 @@ def run(ctx):
     ctx.rule("C28.1", "layout constants and byte ranges duplicated in vacuum.rs agree with the owning module")
     ctx.rule("C28.2", "vacuum marks every page list a segment owns and selects WAL roots like recovery does")
     ctx.rule("C28.3", "copy is synced before the original is replaced; rename order target->backup then tmp->target")
+    ctx.rule("C28.5", "the vacuumed file's next_page_id derives from the largest reachable page id (not from a page count)")
     ctx.rule("C28.4", "reachability marking consumes every root kind: all WalRoots fields, the node table, the index catalog and its trees")
 
     dups = sorted(k for k in F.consts if k.startswith(V))
@@ -185,3 +186,25 @@ def run(ctx):
     for k, what in need.items():
         ctx.instance("C28.4", "marking calls %s (%s)=%s" % (k, what, k in called))
         ctx.oblige(k in called, "C28.4", "mark_reachable_pages:no-call(%s)" % k, "vacuum no longer marks the %s" % what, mb.file)
+
+    # ---- clause 5
+    from ..mirutil import backward_slice
+    wc2 = ctx.body(M.PAGER + "::write_vacuum_copy")
+    n5 = 0
+    for bi, blk in enumerate(wc2.blocks):
+        for st in blk["s"]:
+            if st[0] == "a" and any(isinstance(p_, list) and p_[0] == "f" and p_[2] == "next_page_id" and p_[3].endswith("pager::Meta") for p_ in st[1][1]):
+                n5 += 1
+                src = st[2][1] if st[2][0] == "use" else None
+                l = op_local(src) if src is not None else None
+                calls, _f = backward_slice(wc2, l) if l is not None else ([], set())
+                names = {c.name.split("::")[-1] for c in calls}
+                decl = {c.declared for c in calls}
+                from_max = ("core::cmp::Ord::max" in decl) or ("max" in names) or ("last" in names) or ("next_back" in names)
+                from_count = bool(names & {"count", "len"}) and not from_max
+                ctx.instance("C28.5", "write_vacuum_copy: next_page_id derives from %s" % sorted(n for n in names if n in ("max", "last", "count", "len", "saturating_add", "next_back")))
+                ctx.oblige(from_max and not from_count, "C28.5", "write_vacuum_copy:next_page_id-not-from-max-page",
+                           "the allocation high-water mark of the vacuumed file is not computed from the largest reachable page id: pages are not "
+                           "relocated, so with any hole below the top live page the mark is too low and later allocations overwrite live pages",
+                           "%s:%d" % (wc2.file, st[3]))
+    ctx.floor("C28.5", "next_page_id assignments in write_vacuum_copy", n5, 1)
